@@ -236,6 +236,41 @@ theorem unknown_id_skipped (live a b : List Nat) (u : Nat) (route : String) (dat
     pushMsg live (a ++ u :: b) route data = pushMsg live (a ++ b) route data := by
   simp [pushMsg, List.filter_append, hu]
 
+/-- **A push issued from inside `OnSessionAdd`.** `AddSession` registers the connection
+before it calls the handler, so for every front state and every id list the new
+connection receives such a push exactly as often as it is listed (it has its id and
+is live), and the connections that were live before are served as usual. -/
+theorem push_inside_session_add_reaches_new_connection (fr : Front) (ids : List Nat) (route : String) (data : List Nat) :
+    ((pushMsg fr.addSession.1.live ids route data).map (·.id)).count fr.addSession.2 = ids.count fr.addSession.2 ∧
+    ∀ x ∈ fr.live, ((pushMsg fr.addSession.1.live ids route data).map (·.id)).count x = ids.count x := by
+  refine ⟨(front_fanout _ ids route data).1 _ (addSession_mem fr), fun x hx => ?_⟩
+  apply (front_fanout _ ids route data).1
+  unfold Front.addSession
+  by_cases h : (allocId fr.nextId).1 ∈ fr.live <;> simp [h, hx]
+
+/-- **A push issued from inside `OnSessionRemove`.** `RemoveSession` deletes the
+connection before it calls the handler, so after any history the removed connection
+receives nothing from such a push, while every other live connection still
+receives it as often as it is listed. -/
+theorem push_inside_session_remove_skips_removed (ser : String → List Nat) (lf : String) (ops : List Op)
+    (id : Nat) (ids : List Nat) (route : String) (data : List Nat) :
+    let fr := (run ser (init lf) ops).front
+    ((pushMsg (fr.removeSession id).1.live ids route data).map (·.id)).count id = 0 ∧
+    ∀ x ∈ fr.live, x ≠ id → ((pushMsg (fr.removeSession id).1.live ids route data).map (·.id)).count x = ids.count x := by
+  intro fr
+  have hnd : fr.live.Nodup := live_nodup_run ser (init lf) ops (by simp [init])
+  have hnot : id ∉ (fr.removeSession id).1.live := by
+    unfold Front.removeSession
+    by_cases hm : id ∈ fr.live
+    · simp only [hm, if_true]; exact fun hh => (List.Nodup.mem_erase_iff hnd).1 hh |>.1 rfl
+    · simp [hm]
+  refine ⟨(front_fanout _ ids route data).2.1 id hnot, fun x hx hne => ?_⟩
+  apply (front_fanout _ ids route data).1
+  unfold Front.removeSession
+  by_cases hm : id ∈ fr.live
+  · simp only [hm, if_true]; exact (List.mem_erase_of_ne hne).2 hx
+  · simp [hm, hx]
+
 /-- **End to end for the issuing front-end.** After any history, the connections of
 the front that owns the channel service receive, in place, exactly the listed ids
 of (c, local front) that are live sessions, once per occurrence, in list order,
@@ -344,6 +379,12 @@ example : (5 : Nat) ∉ (view (run (fun _ => []) (init "f1") demo).svc "a" "f1")
 /-- `session_id_fresh` hypotheses hold in the initial front state -/
 example : (init "f1").front.nextId + 1 < 2 ^ 32 ∧ ∀ x ∈ (init "f1").front.live, x ≤ (init "f1").front.nextId := by
   simp [init]
+
+/-- a push from inside OnSessionAdd listing the new connection (id 2) twice and a dead id;
+a push from inside OnSessionRemove of 2 listing 2 and 3 -/
+example : pushMsg (init "f1").front.addSession.1.live [2, 9, 2] "r" [] = [⟨2, "r", []⟩, ⟨2, "r", []⟩] ∧
+    pushMsg ((run (fun _ => []) (init "f1") [.sadd, .sadd]).front.removeSession 2).1.live [2, 3] "r" [] = [⟨3, "r", []⟩] := by
+  decide
 
 /-- fan-out with a dead id in the middle and a duplicate -/
 example : pushMsg [2, 3] [2, 9, 3, 2] "r" [1] = [⟨2, "r", [1]⟩, ⟨3, "r", [1]⟩, ⟨2, "r", [1]⟩] := by decide
